@@ -74,3 +74,46 @@ fn claims_merge_unchecked_agrees() {
     let m = unsafe { Claims::merge_unchecked(a, &b) };
     assert!(m.0 == join(a.0, b.0) && m.1 .0 == join(a.1 .0, b.1 .0));
 }
+
+// ------------------------------------------------------------------ claims() tables (C08 kernel input)
+use crate::{
+    entity,
+    query::{filter, Views},
+    registry::contains::views::Sealed as RegistryViewsSealed,
+    Registry,
+};
+
+pub struct CA(u8);
+pub struct CB(u8);
+pub struct CC(u8);
+type R3 = Registry!(CA, CB, CC);
+
+fn claims_of<'a, V, I>() -> (Claim, (Claim, (Claim, Null)))
+where
+    V: crate::query::view::Views<'a>,
+    R3: RegistryViewsSealed<'a, V, I, Claims = (Claim, (Claim, (Claim, Null)))>,
+{
+    <R3 as RegistryViewsSealed<'a, V, I>>::claims()
+}
+
+fn flat(c: (Claim, (Claim, (Claim, Null)))) -> [Claim; 3] {
+    [c.0, c.1 .0, c.1 .1 .0]
+}
+
+/// the run-time claim of a view list over a registry: at each component's registry position,
+/// Immutable for `&C` / `Option<&C>`, Mutable for `&mut C` / `Option<&mut C>`, None otherwise --
+/// whatever order the views are written in.  Complete per instance (no data, no loops).
+#[kani::proof]
+fn registry_view_claims_table() {
+    use Claim::{Immutable as I, Mutable as M, None as N};
+    assert!(flat(claims_of::<Views!(&CA), _>()) == [I, N, N], "C08: &C claims C immutably");
+    assert!(flat(claims_of::<Views!(&mut CB), _>()) == [N, M, N], "C08: &mut C claims C mutably");
+    assert!(flat(claims_of::<Views!(Option<&CC>), _>()) == [N, N, I], "C08: Option<&C> claims C immutably");
+    assert!(flat(claims_of::<Views!(Option<&mut CA>), _>()) == [M, N, N], "C08: Option<&mut C> claims C mutably");
+    assert!(flat(claims_of::<Views!(Option<&mut CC>), _>()) == [N, N, M], "C08: Option<&mut C> claims C mutably (last position)");
+    assert!(flat(claims_of::<Views!(entity::Identifier), _>()) == [N, N, N], "C08: the identifier view claims nothing");
+    assert!(flat(claims_of::<Views!(), _>()) == [N, N, N]);
+    assert!(flat(claims_of::<Views!(&mut CC, &CA), _>()) == [I, N, M], "C08: written order is irrelevant");
+    assert!(flat(claims_of::<Views!(Option<&mut CB>, entity::Identifier, &CC, &mut CA), _>()) == [M, M, I]);
+    assert!(flat(claims_of::<Views!(&CB, Option<&CA>, Option<&mut CC>), _>()) == [I, I, M]);
+}
